@@ -19,6 +19,7 @@ CONSTANTS MaxWord,      \* maximal length of the transformation word
                         \* the whole box universe of HypCoords, 4: the band points (triangles only over a band pair),
                         \* 5: drawings with custom windows and points outside the default window,
                         \* 6: all words in three non-commuting atoms on two points,
+                        \* 8: end points in the 10% margin just outside the default window (half-plane x = -7, 7) and inside it,
                         \* 7: small polygons: polygons on six points shrunk by Lox(1, q), q in Shrinks
 
 VARIABLES word, verts, last,
@@ -55,7 +56,12 @@ Windows == IF Core = 5 THEN {<<4, 14, 8>>, <<0 - 20, 20, 12>>} ELSE {DefaultWind
 CONSTANT Shrinks      \* the factors q of Core = 7 (>= 30)
 \* (1,0,0)-(5,-3,0): on the axis of the shrink; (3,2,2)-(9,7,4): on the vertical X = -2 of the half-plane
 ShrinkPts == {P3(1, 0, 0), P3(5, 0 - 3, 0), P3(3, 2, 2), P3(9, 7, 4), P3(9, 4, 0 - 8)}
-Pts == CASE Core = 7 -> ShrinkPts [] Core = 6 -> {P3(3, 2, 2), P3(5, 3, 4)} [] Core = 5 -> WinPts \cup WinOthers [] Core = 1 -> SpecialSmall [] Core = 2 -> Special [] Core = 3 -> Universe \cup Special \cup BandPts [] Core = 4 -> BandPts
+\* half-plane points (-7,1), (-7,3), (7,1), (7,3): in the margin left / right of the default window x in -6..6, each pair on
+\* one vertical (straight pieces); the others inside the window (arcs to the margin points)
+MarginPts == {P3(51, 49, 14), P3(59, 57, 14), P3(51, 49, 0 - 14), P3(59, 57, 0 - 14)}
+MarginInside == {P3(1, 0, 0), P3(3, 2, 2), P3(9, 4, 0 - 8)}
+ASSUME \A v \in MarginPts : DgInMargin("halfplane", v, <<0 - 6, 6, 8>>) /\ ~DgInWindow("halfplane", v, <<0 - 6, 6, 8>>)
+Pts == CASE Core = 8 -> MarginPts \cup MarginInside [] Core = 7 -> ShrinkPts [] Core = 6 -> {P3(3, 2, 2), P3(5, 3, 4)} [] Core = 5 -> WinPts \cup WinOthers [] Core = 1 -> SpecialSmall [] Core = 2 -> Special [] Core = 3 -> Universe \cup Special \cup BandPts [] Core = 4 -> BandPts
 
 \* Core = 6: every word of length <= MaxWord in three atoms that do not commute, on two points
 WordAtoms == {[k |-> "lox", p |-> 2, q |-> 1], [k |-> "rot", a |-> 3, b |-> 4, c |-> 5], [k |-> "refl", v |-> P3(1, 2, 0)]}
@@ -94,7 +100,7 @@ Next == \/ \E a \in Atoms : AddTransform(a) \/ Precompose(a)
 NEdges(vs) == IF Len(vs) >= 3 THEN Len(vs) ELSE IF Len(vs) = 2 THEN 1 ELSE 0
 Succ(vs, i) == IF i = Len(vs) THEN 1 ELSE i + 1
 
-InWin(m, v) == DgInWindow(m, v, win)
+InWin(m, v) == IF Core = 8 THEN DgInMargin(m, v, win) ELSE DgInWindow(m, v, win)
 ModelOK(m, tv) ==
   /\ \A i \in 1..Len(tv) : DgDefined(m, tv[i]) /\ InWin(m, tv[i])
   /\ \A i \in 1..NEdges(tv) : DgKindDecided(m, DgNormal(tv[i], tv[Succ(tv, i)]))
@@ -187,6 +193,7 @@ KindsCovered ==
      \E x, y \in SpecialSmall : x # y /\ DgDefined(m, x) /\ DgDefined(m, y) /\ DgInView(m, x) /\ DgInView(m, y)
                            /\ DgKind(m, DgNormal(x, y)) = k
 ASSUME KindsCovered
+ASSUME PrintT("DEFAULTS " \o ToJson([model |-> DgDefaultModel, word |-> <<>>, win |-> DefaultWindow]))
 \* ... and (for the library's threshold 80) the band points put edges on both sides of the threshold, within a factor 2
 BandsCovered ==
   Threshold = 80 =>
